@@ -253,7 +253,7 @@ func checkC12(p *Program, r *Result) {
 	// ---- b
 	lfd := func() *ast.FuncDecl {
 		for fn, d := range g.decls {
-			if fn.Name() == "loadChunk" && d.Recv == nil {
+			if fn.Name() == "loadChunk" && (d.Recv == nil || recvTypeName(g, d) == "Lexer") {
 				return d
 			}
 		}
